@@ -24,6 +24,9 @@ fn run_input(case: &Value, corpus: &[String], events: bool, _xml: bool) -> Value
     v["wf"] = json!(input.facts.wf);
     v["badlex"] = json!(input.facts.badlex);
     v["gtoks"] = json!(input.facts.ntoks);
+    if case["g"].as_str() == Some("cell") {
+        v["shape"] = json!(crate::edge::label(&case["cell"]));
+    }
     // a short, printable prefix of the input for reports
     let head: Vec<u8> = input.bytes.iter().take(120).copied().collect();
     v["head"] = json!(String::from_utf8_lossy(&head));
@@ -115,6 +118,19 @@ pub fn run_case(case: &Value, corpus: &[String], events: bool, xml: bool) -> Val
             v["gen"] = json!(m);
             v
         }
+        "xmod" => {
+            let seed = case["seed"].as_u64().unwrap_or(1);
+            let i = case["i"].as_u64().unwrap_or(0) as usize;
+            let (m, class, big) = module::extended_module(seed, i);
+            let mut v = run_module(&m, None, seed.wrapping_mul(37).wrapping_add(i as u64) | 1, events, xml);
+            // (the generated module itself can be tens of thousands of statements: its size and names are enough to
+            // check that the parser saw every declaration)
+            v["gen_n"] = json!(m.len());
+            v["gen_names"] = json!(m.iter().map(|d| d["name"].clone()).collect::<Vec<_>>());
+            v["class"] = json!(class);
+            v["big"] = json!(big);
+            v
+        }
         _ => run_input(case, corpus, events, xml),
     }
 }
@@ -124,7 +140,7 @@ pub fn show(case: &Value) {
     crate::run::install_panic_recorder();
     let corpus = inputs::corpus_files(&crate::worker::repo_dir());
     match case["g"].as_str().unwrap_or("") {
-        "mod" | "rmod" => {
+        "mod" | "rmod" | "xmod" => {
             let v = run_case(case, &corpus, true, true);
             println!("--- source");
             println!("{}", v["src"].as_str().unwrap_or(""));
